@@ -90,4 +90,54 @@ def pyBool (v : Val) : Val := .bool v.truthy
 def run {α} (m : OM α) (s : PyStoreSt) : Except Err α × PyStoreSt := (ExceptT.run m).run s
 
 end OM
+/-! dict side of a mapper state (`data_type='mapper'`): `self.values[i]` is a dict map_key → group index -/
+structure MapSt where
+  /-- per slot: the dict as an insertion-ordered association list; `none` = the slot does not hold a dict (growth filler 0, or
+  after `del_key`) -/
+  dicts : List (Option (List (Val × Nat)))
+  nextIndex : Nat
+  freeSlots : List Nat
+
+abbrev MM := ExceptT Err (StateM MapSt)
+
+namespace MM
+/-- `self.next_index` / `self.free_slots` -/
+def getNextIndex : MM Nat := do return (← get).nextIndex
+def getFreeSlots : MM (List Nat) := do return (← get).freeSlots
+def setNextIndex (n : Nat) : MM Unit := modify fun s => { s with nextIndex := n }
+def setFreeSlots (l : List Nat) : MM Unit := modify fun s => { s with freeSlots := l }
+
+/-- the dict held by slot `i` (IndexError past the end; a slot that holds no dict is not subscriptable) -/
+def dictOf (i : Nat) : MM (List (Val × Nat)) := do
+  match (← get).dicts[i]? with
+  | some (some m) => pure m
+  | some none => throw "TypeError"
+  | none => throw "IndexError"
+
+/-- `self.values[i][k] = v`: an existing key keeps its place, a new one goes last -/
+def dictSet (i : Nat) (k : Val) (v : Nat) : MM Unit := do
+  let m ← dictOf i
+  let m' := if m.any (fun p => p.1 = k) then m.map (fun p => if p.1 = k then (k, v) else p) else m ++ [(k, v)]
+  modify fun s => { s with dicts := s.dicts.set i (some m') }
+
+/-- `k in self.values[i]` -/
+def dictContains (i : Nat) (k : Val) : MM Bool := do
+  let m ← dictOf i
+  pure (m.any (fun p => p.1 = k))
+
+/-- `self.values[i][k]` -/
+def dictGet (i : Nat) (k : Val) : MM Nat := do
+  let m ← dictOf i
+  match m.find? (fun p => p.1 = k) with
+  | some p => pure p.2
+  | none => throw "KeyError"
+
+/-- `for k in self.values[i]` (a generator: the keys in insertion order) -/
+def dictKeys (i : Nat) : MM (List Val) := do
+  let m ← dictOf i
+  pure (m.map (·.1))
+
+def run {α} (m : MM α) (s : MapSt) : Except Err α × MapSt := (ExceptT.run m).run s
+end MM
+
 end Rx
